@@ -1,8 +1,10 @@
 package checks
 
 import (
+	"crypto/sha512"
 	"encoding/base64"
 	"fmt"
+	"net/url"
 	"regexp"
 	"strings"
 
@@ -136,6 +138,13 @@ func (m *c17mon) Post(s *sim.Sim, st *sim.Step) []*sim.Violation {
 	// (b) log lines of this request
 	for _, line := range rec.Logs {
 		m.stats.Count("log-lines-scanned")
+		// tokens the harness has never been shown (their mail was never sent, e.g. because a template
+		// failed) are recognised by what storage holds about them: anything in the line that decodes to 64
+		// bytes whose first half hashes to a stored confirm/recover selector, or that equals the 2FA e-mail
+		// token a session holds, is a live mailed-token-to-be
+		if kind, pid := liveTokenIn(s, rec, line); kind != "" {
+			vs = append(vs, vio("C17", "secret-in-log|"+kind+"-token-never-mailed|"+logShape(line), "log line contains the live %s token of %q (recognised through the stored selector / the session's copy): %s", kind, pid, trunc(line, 200)))
+		}
 		for _, sc := range secs {
 			if strings.Contains(line, sc.val) {
 				vs = append(vs, vio("C17", "secret-in-log|"+sc.label+"|"+logShape(line), "log line contains a %s: %s", sc.label, redact(line, sc.val)))
@@ -208,6 +217,26 @@ func (m *c17mon) Sig(s *sim.Sim, st *sim.Step) string {
 }
 
 var c17Templates = []sim.Template{
+	{Name: "mail-template-fails-after-the-link-was-rendered", F: func(s *sim.Sim) []*sim.Action {
+		// the text part of a token mail fails to render when the HTML part — with the link — is already
+		// there; or the first part fails; or the mailer does: whatever gets logged then, it is not the token
+		var sc []*sim.Action
+		op := func() *sim.Action {
+			return act("faultnext", 0, -9, "", "op", pickS(s.R, "mailrender-txt", "mailrender-txt", "mailrender", "mail"))
+		}
+		if s.Cfg.Has("recover") {
+			sc = append(sc, op(), act("recover_start", 0, s.R.Intn(len(s.Accts)), ""))
+		}
+		if s.Cfg.Has("confirm") {
+			sc = append(sc, op(), act("admin_startconfirm", 0, s.R.Intn(len(s.Accts)), ""))
+		}
+		if s.Cfg.TwoFAEmail && s.Cfg.Has("auth") {
+			if v := findAcct(s, func(u *world.User) bool { return u.TOTPSecretKey == "" && u.SMSPhone == "" && u.Confirmed }); v >= 0 {
+				sc = append(sc, act("login", 1, v, "ok"), op(), act("ev_start", 1, -9, "", "kind", s.Cfg.TwoFA[0]))
+			}
+		}
+		return sc
+	}},
 	{Name: "two-accounts-request-the-2fa-mail-in-one-session", F: func(s *sim.Sim) []*sim.Action {
 		// each account's verification mail carries a token of its own: what was mailed to the first
 		// account never turns up in the mail to the second
@@ -328,4 +357,42 @@ func init() {
 		},
 		Assumptions: []string{"only secrets of >= 8 bytes are searched for (SMS codes are 6 digits; coincidental hits would be noise); TOTP secrets are stored in clear by design and are not in the property's list", "the logger is the shipped defaults.Logger writing to a capture buffer"},
 	})
+}
+
+var reTokenish = regexp.MustCompile(`[A-Za-z0-9_-]{40,}`)
+
+// liveTokenIn looks for a currently valid confirm / recover / 2FA-e-mail token in a log line without
+// knowing the token: candidates are recognised through the selector hash storage keeps, or through
+// the copy the session keeps.
+func liveTokenIn(s *sim.Sim, rec *world.Rec, line string) (kind, pid string) {
+	if un, err := url.QueryUnescape(line); err == nil {
+		line += " " + un
+	}
+	for _, c := range reTokenish.FindAllString(line, -1) {
+		for _, snap := range []*world.Snapshot{rec.Before, rec.After} {
+			if snap == nil {
+				continue
+			}
+			if len(c) >= 86 {
+				if raw, err := base64.RawURLEncoding.DecodeString(c[:86]); err == nil && len(raw) == 64 {
+					h := sha512.Sum512(raw[:32])
+					sel := base64.StdEncoding.EncodeToString(h[:])
+					for p, u := range snap.Users {
+						if u.ConfirmSelector == sel {
+							return "confirm", p
+						}
+						if u.RecoverSelector == sel {
+							return "recover", p
+						}
+					}
+				}
+			}
+		}
+		for _, bs := range s.Br {
+			if t := s.W.Sess.Of(bs.B)["twofactor_auth_token"]; t != "" && strings.TrimRight(t, "=") == c {
+				return "2fa-email", s.W.Sess.Of(bs.B)["twofactor_authed_pid"]
+			}
+		}
+	}
+	return "", ""
 }
